@@ -392,6 +392,21 @@ def do_check(pid, cfg, tier, seed):
             results += r
             for k, v in st.items():
                 stats[k] = stats.get(k, 0) + v
+    if cfg.get("table_crosscheck") and results:
+        # TIE-G cross-check: the struct tables extracted from the source text (go/ast) must equal what
+        # reflect shows the running code (the defmsg lines of the harness), dialect by dialect.
+        mt = os.path.join(BUILD, "gen.new", "msgs.txt")
+        if os.path.exists(mt):
+            ast_lines = {l.strip() for l in open(mt) if l.strip()}
+            seen_d = {r[0].split(" ")[1] for r in results if r[0].startswith("defmsg ")}
+            refl = {r[0][len("defmsg "):] for r in results if r[0].startswith("defmsg ")}
+            ast_sel = {l for l in ast_lines if l.split(" ")[0] in seen_d}
+            refl_sel = {l for l in refl if l.split(" ")[0] != "user"}
+            if ast_sel != refl_sel:
+                d = sorted(ast_sel ^ refl_sel)[:3]
+                corr_problems.append("extracted message tables differ from reflection: " + " || ".join(x[:200] for x in d))
+        else:
+            corr_problems.append("msgs.txt missing (extractor did not run)")
     known = load_known()
     model_diffs, spec_diffs, known_hits = [], [], {}
     domain = cfg.get("spec_domain")
@@ -462,8 +477,10 @@ def do_check(pid, cfg, tier, seed):
 
 def needs_setup(setup_line, op):
     t = op.split(" ")
-    dn = setup_line.split(" ")[1]
-    return dn in t
+    st = setup_line.split(" ")
+    if t[0] in ("msgenc", "msgdec"):
+        return st[1] == t[1] and st[2] == t[2]
+    return st[1] in t
 
 
 def do_replay(pid, cfg, path):
